@@ -410,6 +410,13 @@ fn run_case(rep: &mut Report, ctx: &mut Ctx, case: &Case) {
             }
             if let Some((kind, detail)) = &o.failure {
                 rep.count(&format!("failures_raw:{}", kind));
+                // Bounded work: one violation per signature is kept anyway.
+                let done = *rep.counters.get("failures_shrunk").unwrap_or(&0);
+                if done >= 60 || rep.n_violations() >= rep.max_violations {
+                    rep.count(&format!("failures_not_shrunk:{}", kind));
+                    return;
+                }
+                rep.count("failures_shrunk");
                 let s = shrink(case, kind);
                 let sdetail = s.run().ok().and_then(|o| o.failure).map(|f| f.1).unwrap_or(detail.clone());
                 let summary = if s.api == "normalize" {
@@ -495,7 +502,7 @@ pub fn run(args: &Args) {
 
     // ---- random part
     let mut rng = Rng::derive(args.seed, 0xC30_0000 + args.shard as u64);
-    let n_cfg = args.budget(6_000, 600_000);
+    let n_cfg = args.budget(24_000, 1_200_000);
     for i in 0..n_cfg {
         let tokenizer_route = i % 5 == 4;
         let norm = rand_norm(&mut rng, tokenizer_route);
